@@ -58,7 +58,7 @@ Definition run_model (c : config) (t : tables) (d : dirst) (o : op) (orc : oracl
   | OpAdd u pw adm => Some (p_add (kdf_of t) ft c d u pw adm orc)
   | OpUpdate u pw => Some (p_update (kdf_of t) ft c d u pw orc)
   | OpSetAdmin u adm => Some (p_set_admin ft d u adm)
-  | OpRemove u => Some (ROk, p_remove_user ft d u)
+  | OpRemove u => Some (p_remove_user_res ft d u, p_remove_user ft d u)
   | OpInit u pw =>
       if dir_empty d then Some (p_add (kdf_of t) ft c d u pw true orc) else Some (RErr, t0 d)
   | _ => None
